@@ -59,6 +59,15 @@ func fill(n int, f func(v int)) {
 
 var keys = []string{"a", "ab", "b", "abc"}
 
+// heapPeers gives every Heap instance of a scenario a second SHARED heap: two workers can then
+// work on the same two heaps in opposite roles (a.Meld(b) against b.Meld(a)).
+var heapPeers sync.Map
+
+func heapPeer(i any) *heap.Heap[int] {
+	p, _ := heapPeers.Load(i)
+	return p.(*heap.Heap[int])
+}
+
 func types() []ctype {
 	return []ctype{
 		{
@@ -66,6 +75,9 @@ func types() []ctype {
 			mk: func(n int) any {
 				h := heap.NewHeap(lt)
 				fill(n, func(v int) { h.Push(v) })
+				peer := heap.NewHeap(lt)
+				peer.Push(11, 12)
+				heapPeers.Store(h, peer)
 				return h
 			},
 			methods: []method{
@@ -109,6 +121,12 @@ func types() []ctype {
 					r := o.Meld(i.(*heap.Heap[int]))
 					_ = r.Size()
 				}},
+				// the same two shared heaps in both roles
+				{"Meld(recv,peer)", func(i any, a int) { _ = i.(*heap.Heap[int]).Meld(heapPeer(i)).Size() }},
+				{"Meld(arg,peer)", func(i any, a int) { _ = heapPeer(i).Meld(i.(*heap.Heap[int])).Size() }},
+				{"Merge(recv,peer)", func(i any, a int) { _ = i.(*heap.Heap[int]).Merge(heapPeer(i)).Size() }},
+				{"Merge(arg,peer)", func(i any, a int) { _ = heapPeer(i).Merge(i.(*heap.Heap[int])).Size() }},
+				{"Push(peer)", func(i any, a int) { heapPeer(i).Push(a%4 + 1) }},
 			},
 			sanity: func(i any) {
 				h := i.(*heap.Heap[int])
@@ -118,6 +136,10 @@ func types() []ctype {
 				h.Delete(9)
 				_ = h.Pop()
 				h.Clear()
+				p := heapPeer(i)
+				p.Push(9)
+				_ = p.Pop()
+				heapPeers.Delete(i)
 			},
 		},
 		{
